@@ -11,12 +11,13 @@ pub struct ClassPlan { pub name: &'static str, pub n: u64 }
 pub fn make_case(class: &str, seed: u64, case_no: u64) -> Case {
   let mut rng = Rng::derive(seed ^ util::Fnv::default().0.wrapping_add(class.len() as u64 * 7919 + class.bytes().map(|b| b as u64).sum::<u64>()), case_no);
   let exact = class.contains("exact") || (class.contains("any") && rng.chance(2, 5));
-  let big = rng.chance(1, 10);
+  let soak = class.contains("soak");
+  let big = soak || rng.chance(1, 10);
   let o = GenOpts { max_tasks: if big { 16 } else if rng.chance(1, 4) { 10 } else { 6 }, exact_only: exact, max_ops: if big { 7 } else { 5 } };
   let prog = gen::gen_program(&mut rng, &o);
   let init = gen::gen_init(&mut rng, &prog);
   let hc = if class.starts_with("td") { HistClass::TopDown } else if class.starts_with("pure") { HistClass::PureBottomUp } else { HistClass::Mixed };
-  let n_builds = rng.range(6, 12);
+  let n_builds = if soak { rng.range(120, 200) } else { rng.range(6, 12) };
   let mut prog = prog;
   let mut steps = gen::gen_history(&mut rng, &prog, hc, n_builds);
   if class.contains("multi") { gen::mutate_multi_checker(&mut rng, &mut prog); }
@@ -67,6 +68,17 @@ pub fn run_classes(which: &'static str, tier: &str, seed: u64, plans: &[ClassPla
     return total;
   }
   let threads = util::threads();
+  if tier == "miri" {
+    for plan in plans {
+      for i in 0..plan.n {
+        let case = make_case(plan.name, seed, i);
+        let opts = opts_for(which, plan.name, tier, seed, i);
+        total.sample(|| case.to_json());
+        CaseRunner::new(&case, &opts, &mut total).run();
+      }
+    }
+    return total;
+  }
   // curated library first (known-finding reproducers and hostile shapes); findings here are raised as alarms
   for (k, (name, case, opts)) in curated_all(which, seed).iter().enumerate() {
     let _ = (k, name);
